@@ -18,6 +18,16 @@ impl Object {
         }
     }
 
+    #[cfg(feature = "verif-hooks")]
+    pub(crate) fn verif_dump(&self, uuid: aldrin_core::ObjectUuid) -> crate::verif::DumpObject {
+        crate::verif::DumpObject {
+            uuid,
+            conn: self.conn_id.verif_id(),
+            cookie: self.cookie,
+            services: self.svcs.iter().copied().collect(),
+        }
+    }
+
     pub(crate) fn conn_id(&self) -> &ConnectionId {
         &self.conn_id
     }
